@@ -38,3 +38,28 @@ package contracts
 //@   trusted
 //@   ensures [fun] n == ParseUintV(s, base, bitSize) && err == ParseUintE(s, base, bitSize)
 //@   assigns nothing
+//@
+//@ package os
+//@
+//@ # FileIs(v, n, name): v[0..n) are the bytes of the file called name; FileErr(name): the error of reading it
+//@ specfun FileIs(v seq[byte], n int, name string) bool
+//@ specfun FileErr(name string) error
+//@
+//@ func os.ReadFile(name) (data, err)
+//@   trusted
+//@   ensures [err] err == FileErr(name)
+//@   ensures [data] imp(err == nil, FileIs(view(data), len(data), name) && (len(data) == 0 || arr(data) >= old(alloc())))
+//@   assigns nothing
+//@
+//@ package strings
+//@ specfun HasSuffixF(s string, suffix string) bool
+//@ func strings.HasSuffix(s, suffix)
+//@   trusted
+//@   ensures [fun] result == HasSuffixF(s, suffix)
+//@   assigns nothing
+//@
+//@ package errors
+//@ func errors.New(text)
+//@   trusted
+//@   ensures [nonnil] result != nil
+//@   assigns nothing
